@@ -65,6 +65,9 @@ def obligations(ctx):
     # mint = multiasset<nonZeroInt64>: the builder hands out a mint field only without zero quantities (shared with C14)
     from obl.c14 import mint_builder_amounts
     mint_builder_amounts(ctx, parts=("build",), name="c03_e2_mint_builder_build_refuses_zero")
+    change_bundles_wellformed(ctx)
+    from obl.c05 import change_step
+    change_step(ctx, record=("c03",), rounds=1)
 
 
 # ---------------------------------------------------------------- struct-level forms against a table written from the Conway CDDL
@@ -421,3 +424,115 @@ def text_size_bounds(ctx):
             ob.fail("%s: expected accepting and refusing paths, saw %s" % (fn, sorted(seen)))
         agg.stats["paths"] += E.stats["paths"]; agg.stats["functions"] |= E.stats["functions"]
     ob.finish(agg)
+
+
+# ---------------------------------------------------------------- builder clause: no zero-quantity asset, no empty policy bundle in a change output
+def change_bundles_wellformed(ctx):
+    """'every transaction the builder produces ... never contains a zero-quantity asset or an empty policy bundle in an output':
+    the bundles pack_nfts_for_change cuts out of the leftover value become the change outputs.  It is executed from MIR on
+    leftover values of concrete shape (1-2 policies x 1-2 asset names) with symbolic quantities INCLUDING 0 — the leftover is
+    input - output and an input value may carry zero entries —, the size predicates arbitrary: every bundle returned must hold
+    only positive quantities and no policy without assets."""
+    import itertools
+    P = ctx.P
+    ob = Obligation(ctx, "c03_e2_change_bundles_have_no_zero_or_empty_entries", "leftover value of shape 1-2 policies x 1-2 asset names, quantities all u64 including 0; size predicates (value too large, minimum ADA) arbitrary",
+                    ["pack_nfts_for_change"], fallback_native="e2n_c03_change_zero_quantities")
+    cands = [d for d in P.fns if re.search(r"(^|::)pack_nfts_for_change$", d)]
+    agg = Engine(P)
+    if not cands:
+        ob.fail("pack_nfts_for_change not found in the MIR"); ob.finish(agg); return
+    shapes = [[("p0", ["a0"])], [("p0", ["a0", "a1"])], [("p0", ["a0"]), ("p1", ["a0"])], [("p0", ["a0", "a1"]), ("p1", ["a1"])]]
+    nret = 0
+    norm = [d for d in P.fns if re.search(r"(^|::)without_zero_assets$", d)]
+    if not norm:
+        ob.fail("the zero-dropping normalisation (without_zero_assets) is not in the MIR")
+    for target, shape in [("pack", sh) for sh in shapes] + ([("normalise", sh) for sh in shapes] if norm else []):
+        E = Engine(P, max_loop=8)
+        E.U = agg.U
+        q = {}
+        def ovf(E_, c, a):
+            b = E_.fresh("would_overflow", "bool")
+            return VEnum("Result", "Ok", [VBool(z3.BoolVal(E_.choose([b, z3.Not(b)], "would overflow") == 0))])
+        E.extra_intrinsics[r"(^|::)will_adding_asset_make_output_overflow$"] = ovf
+        E.extra_intrinsics[r"MinOutputAdaCalculator::new_empty$"] = lambda E_, c, a: VEnum("Result", "Ok", [VOpaque("calc")])
+        E.extra_intrinsics[r"MinOutputAdaCalculator::set_\w+$"] = lambda E_, c, a: UNIT
+        def calc(E_, c, a):
+            v = E_.fresh("min_ada"); E_.pc.append(z3.And(v >= 0, v <= (1 << 64) - 1))
+            return VEnum("Result", "Ok", [VStruct("BigNum", [VInt(v, "u64")])])
+        E.extra_intrinsics[r"MinOutputAdaCalculator::calculate_ada$"] = calc
+        def tb(E_, c, a):
+            n = E_.fresh("value_size"); E_.pc.append(z3.And(n >= 0, n < (1 << 32)))
+            return VOpaque("bytes", [], None) if False else VSeq([], "vec") if False else VStruct("#Bytes", [VInt(n, "usize")])
+        E.extra_intrinsics[r"Value::to_bytes$"] = tb
+        E.extra_intrinsics[r"Vec::<u8>::len$"] = lambda E_, c, a: (VM.deref(E_, a[0]).fields[0] if isinstance(VM.deref(E_, a[0]), VStruct) and VM.deref(E_, a[0]).name == "#Bytes" else NotImplemented)
+        def mk(E=E, shape=shape, q=q):
+            q.clear()
+            for a_, b_ in (("p0", "p1"), ("a0", "a1")):
+                E.pc.append(E.as_u(VLazy(a_, "x")) != E.as_u(VLazy(b_, "x")))
+            pols = []
+            for p_, names in shape:
+                assets = []
+                for a_ in names:
+                    v = E.sym_int("q_%s_%s" % (p_, a_), "u64")
+                    q[(p_, a_)] = v.t
+                    assets.append(VStruct("()", [VLazy(a_, "AssetName"), VStruct("BigNum", [VInt(v.t, "u64")])]))
+                pols.append(VStruct("()", [VLazy(p_, "ScriptHash"), VStruct("Assets", [VSeq(assets, "map")])]))
+            est = VStruct("Value", [VStruct("BigNum", [VInt(E.sym_int("leftover_coin", "u64").t, "u64")]), VEnum("Option", "Some", [VStruct("MultiAsset", [VSeq(pols, "map")])])])
+            for t_ in q.values():
+                E.pc.append(z3.And(t_ >= 0, t_ <= (1 << 64) - 1))
+            if target == "normalise":
+                return [est]
+            for t_ in q.values():
+                E.pc.append(t_ > 0)         # the leftover handed to the packing went through without_zero_assets (decided below and on the change step)
+            return [VInt(E.sym_int("max_value_size", "u32").t, "u32"), VRef(Cell(VOpaque("data_cost"), "dc")), VRef(Cell(VLazy("change_addr", "Address"), "addr")), VRef(Cell(est, "estimator")),
+                    VRef(Cell(VEnum("Option", "None", []), "datum")), VRef(Cell(VEnum("Option", "None", []), "script_ref"))]
+        try:
+            outs = E.explore(cands[0] if target == "pack" else norm[0], mk, max_paths=3000)
+        except Unsupported as e:
+            ob.fail("shape %s: %s cannot be executed (%s)" % (shape, target, str(e)[:200])); continue
+        for o in outs:
+            if target == "normalise":
+                if o.kind != "return":
+                    ob.vc("no panic in without_zero_assets (%s %s)" % (o.kind, o.msg[:60]), o.pc, z3.BoolVal(False)); continue
+                nret += 1
+                E.enter(o)
+                v = VM.deref(E, o.value)
+                ma = VM.deref(E, v.fields[1])
+                got = {}
+                if ma.variant == "Some":
+                    for pe in VM.deref(E, VM.deref(E, ma.fields[0]).fields[0]).items:
+                        pe = VM.deref(E, pe)
+                        assets = VM.deref(E, VM.deref(E, pe.fields[1]).fields[0]).items
+                        if not assets:
+                            ob.violation("shape %s: the normalised leftover holds a policy without assets" % (shape,))
+                        for ae in assets:
+                            ae = VM.deref(E, ae)
+                            got[(VM.deref(E, pe.fields[0]).path, VM.deref(E, ae.fields[0]).path)] = VM.deref(E, ae.fields[1]).fields[0].t
+                for key, t_ in q.items():
+                    if key in got:
+                        ob.vc("shape %s: an entry kept by the normalisation is positive and unchanged" % (shape,), o.pc, z3.And(got[key] == t_, t_ > 0), info=dict(shape=str(shape)))
+                    else:
+                        ob.vc("shape %s: an entry dropped by the normalisation had quantity 0" % (shape,), o.pc, t_ == 0, info=dict(shape=str(shape)))
+                if ma.variant == "Some" and not got:
+                    ob.violation("shape %s: the normalised leftover keeps an empty bundle" % (shape,))
+                continue
+            if o.kind != "return" or o.value.variant != "Ok":
+                continue
+            nret += 1
+            E.enter(o)
+            bundles = VM.deref(E, o.value.fields[0])
+            for bi, b in enumerate(bundles.items):
+                b = VM.deref(E, b)
+                for pe in VM.deref(E, b.fields[0]).items:
+                    pe = VM.deref(E, pe)
+                    assets = VM.deref(E, VM.deref(E, pe.fields[1]).fields[0]).items
+                    if not assets:
+                        ob.violation("shape %s: bundle #%d holds a policy without assets" % (shape, bi)); continue
+                    for ae in assets:
+                        qt = VM.deref(E, VM.deref(E, ae).fields[1]).fields[0].t
+                        ob.vc("shape %s: every quantity in change bundle #%d is positive" % (shape, bi), o.pc, qt > 0, info=dict(shape=str(shape)))
+        agg.stats["paths"] += E.stats["paths"]; agg.stats["feasibility_queries"] += E.stats["feasibility_queries"]; agg.stats["functions"] |= E.stats["functions"]
+    if nret == 0:
+        ob.fail("no returning path")
+    ob.cross_every = 8
+    ob.finish(agg, lambda m, info=None: ("e2n_c03_change_zero_quantities", []))
